@@ -1,3 +1,5 @@
+#[path = "../nested.rs"]
+mod nested;
 fn main() {
-    chumsky_verif_harness::nested::main();
+    nested::main();
 }
